@@ -150,14 +150,21 @@ func detachReferences(changes []schema.Change) []schema.Change {
 			}
 			deferred = append(deferred, change)
 		case *schema.ModifyTable:
-			var fks, rest []schema.Change
+			var fks, mfks, rest []schema.Change
 			for _, c := range change.Changes {
 				switch c := c.(type) {
 				case *schema.AddForeignKey:
 					fks = append(fks, c)
+				case *schema.ModifyForeignKey:
+					mfks = append(mfks, c)
 				default:
 					rest = append(rest, c)
 				}
+			}
+			// A modified foreign-key may reference a table that is added by these changes and its
+			// previous reference may be dropped by them: after the planned, before the deferred.
+			if len(mfks) > 0 {
+				deferred = append([]schema.Change{&schema.ModifyTable{T: change.T, Changes: mfks}}, deferred...)
 			}
 			if len(fks) > 0 {
 				deferred = append(deferred, &schema.ModifyTable{T: change.T, Changes: fks})
